@@ -14,17 +14,15 @@ package main
 import (
 	"context"
 	"encoding/json"
-	"errors"
 	"fmt"
 	goruntime "runtime"
 	"strconv"
 	"strings"
 	"time"
 
-	"k8s.io/apimachinery/pkg/runtime"
-	clienttesting "k8s.io/client-go/testing"
-
-	gatewayfake "github.com/kubewharf/kubegateway/pkg/client/kubernetes/fake"
+	"io/ioutil"
+	"net/http"
+	"net/http/httptest"
 
 	metav1 "k8s.io/apimachinery/pkg/apis/meta/v1"
 
@@ -248,47 +246,84 @@ func runC09(raw json.RawMessage) interface{} {
 	default:
 		panic("unknown cs " + c.CS)
 	}
-	// the limiter server: a fake clientset whose acquire subresource follows the script of the current round
+	// the limiter server: a real HTTP server (loopback) that the real clients of clientSets talk to. Its three
+	// endpoints follow the script of the current round: the acquire subresource (worker rounds), the server
+	// info (sync rounds), the heartbeat (heartbeat rounds).
 	var script *c09Op
 	sent := false
-	fakeClient := gatewayfake.NewSimpleClientset()
-	fakeClient.PrependReactor("create", "ratelimitconditions", func(action clienttesting.Action) (bool, runtime.Object, error) {
-		ca, ok := action.(clienttesting.CreateAction)
-		if !ok || action.GetSubresource() != "acquire" || script == nil {
-			return false, nil, nil
-		}
-		req, _ := ca.GetObject().(*proxyv1alpha1.RateLimitAcquire)
-		asked := false
-		if req != nil {
-			for _, r := range req.Spec.Requests {
-				if r.FlowControl == schema {
-					asked = true
+	infoMode, heartCode := "same", 200
+	var srvURL, srvURL2 string
+	curLeader := func() string { return srvURL }
+	server := httptest.NewServer(http.HandlerFunc(func(w http.ResponseWriter, r *http.Request) {
+		switch {
+		case strings.HasSuffix(r.URL.Path, "/ratelimit/endpoints"):
+			info := proxyv1alpha1.RateLimitServerInfo{Server: "verif", ShardCount: 3}
+			switch infoMode {
+			case "fail":
+				http.Error(w, "unavailable", http.StatusInternalServerError)
+				return
+			case "same":
+				info.Endpoints = []proxyv1alpha1.EndpointInfo{{Leader: curLeader(), ShardID: int32(shard)}}
+			case "other":
+				info.Endpoints = []proxyv1alpha1.EndpointInfo{{Leader: srvURL2, ShardID: int32(shard)}}
+			case "omit":
+			}
+			_ = json.NewEncoder(w).Encode(info)
+		case strings.HasSuffix(r.URL.Path, "/ratelimit/heartbeat"):
+			if heartCode == 0 { // no answer: drop the connection
+				if hj, ok := w.(http.Hijacker); ok {
+					if conn, _, err := hj.Hijack(); err == nil {
+						conn.Close()
+						return
+					}
 				}
 			}
-		}
-		sent = sent || asked
-		reply := &proxyv1alpha1.RateLimitAcquire{}
-		switch script.Srv {
-		case "callerr":
-			return true, nil, errors.New("connection refused")
-		case "accept":
-			reply.Status.Results = []proxyv1alpha1.RateLimitAcquireResult{{FlowControl: schema, Accept: true, Limit: script.Limit}}
-		case "reject":
-			reply.Status.Results = []proxyv1alpha1.RateLimitAcquireResult{{FlowControl: schema, Accept: false, Limit: script.Limit}}
-		case "error":
-			reply.Status.Results = []proxyv1alpha1.RateLimitAcquireResult{{FlowControl: schema, Error: "limiter overloaded"}}
-		case "omit":
-			reply.Status.Results = []proxyv1alpha1.RateLimitAcquireResult{{FlowControl: "another-schema", Accept: true, Limit: 1}}
+			w.WriteHeader(heartCode)
+		case strings.HasSuffix(r.URL.Path, "/acquire") && script != nil:
+			req := &proxyv1alpha1.RateLimitAcquire{}
+			body, _ := ioutil.ReadAll(r.Body)
+			_ = json.Unmarshal(body, req)
+			for _, rq := range req.Spec.Requests {
+				if rq.FlowControl == schema {
+					sent = true
+				}
+			}
+			reply := &proxyv1alpha1.RateLimitAcquire{}
+			reply.APIVersion, reply.Kind = "proxy.kubegateway.io/v1alpha1", "RateLimitAcquire"
+			switch script.Srv {
+			case "callerr":
+				http.Error(w, "connection refused", http.StatusInternalServerError)
+				return
+			case "accept":
+				reply.Status.Results = []proxyv1alpha1.RateLimitAcquireResult{{FlowControl: schema, Accept: true, Limit: script.Limit}}
+			case "reject":
+				reply.Status.Results = []proxyv1alpha1.RateLimitAcquireResult{{FlowControl: schema, Accept: false, Limit: script.Limit}}
+			case "error":
+				reply.Status.Results = []proxyv1alpha1.RateLimitAcquireResult{{FlowControl: schema, Error: "limiter overloaded"}}
+			case "omit":
+				reply.Status.Results = []proxyv1alpha1.RateLimitAcquireResult{{FlowControl: "another-schema", Accept: true, Limit: 1}}
+			default:
+				panic("unknown server behaviour " + script.Srv)
+			}
+			w.Header().Set("Content-Type", "application/json")
+			_ = json.NewEncoder(w).Encode(reply)
 		default:
-			panic("unknown server behaviour " + script.Srv)
+			http.NotFound(w, r)
 		}
-		return true, reply, nil
-	})
+	}))
+	defer server.Close()
+	srvURL = server.URL
+	srvURL2 = strings.Replace(server.URL, "127.0.0.1", "localhost", 1)
+	leaderNow := srvURL
+	curLeader = func() string { return leaderNow }
+	var vnow, rounds, hbcalls int64
 	if cs != nil {
-		clientsets.VerifSetClient(cs, shard, "srv", fakeClient)
+		clientsets.VerifSetClient(cs, shard, srvURL, clientsets.VerifRealClient(cs, srvURL))
+		clientsets.VerifSetLookup(cs, func() []string { return []string{srvURL} })
 	}
+	// virtual clock of clientsets.go: strictly increasing, so that "exactly 5 s later" is after the deadline
+	clientsets.VerifNow = func() time.Time { hbcalls++; return time.Unix(0, vnow*1000000+hbcalls) }
 	// virtual clock of remote_counter.go: epoch + virtual milliseconds + one nanosecond per worker round
-	var vnow, rounds int64
 	remote.VerifNow = func() time.Time { return time.Unix(0, vnow*1000000+rounds) }
 	lim := flowcontrols.NewUpstreamLimiter(ctx, cluster, c.Mode, cs)
 	prov := flowcontrols.VerifCounterProvider(lim)
@@ -428,6 +463,23 @@ func runC09(raw json.RawMessage) interface{} {
 					util.VerifSetReadings(remote.VerifMeter(cache), op.MX, float64(op.Rate))
 				}
 				remote.VerifWatchdogTick(prov, schema)
+			case "info":
+				// one round of clientSets.sync: the server info lists the same leader, another one, none, or fails
+				if cs != nil {
+					infoMode = op.Srv
+					clientsets.VerifSyncRound(cs)
+					if op.Srv == "other" {
+						leaderNow, srvURL2 = srvURL2, leaderNow
+					}
+					infoMode = "same"
+				}
+			case "heart":
+				// one round of clientSets.clientHeart: the leader answers 200, 500, or not at all (limit 0)
+				if cs != nil {
+					heartCode = int(op.Limit)
+					clientsets.VerifHeartRound(cs)
+					heartCode = 200
+				}
 			case "hb":
 				if cs != nil {
 					clientsets.VerifHeartbeatAt(cs, shard, "srv", op.Ready, vnow)
